@@ -174,6 +174,7 @@ type output struct {
 	ids    func() []int64 // delivered ids in order
 	open   func()
 	closeG func()
+	drain  func() // blocks until everything queued behind the output has been handed over (optional)
 }
 
 func runStop(x *core.Ctx, r *core.Rng) {
@@ -253,7 +254,9 @@ func runStop(x *core.Ctx, r *core.Rng) {
 			}
 			env.Alert.RegisterAnonHandler(topic, h)
 			outs = append(outs, output{kind: k, text: fmt.Sprintf("src|alert().id('{{ index .Tags \"g\" }}').message('{{ index .Fields \"id\" }}').crit(lambda: TRUE).topic('%s')", topic),
-				ids: func() []int64 { return parseIDs(h.snapshot()) }, open: h.gate.open})
+				ids: func() []int64 { return parseIDs(h.snapshot()) }, open: h.gate.open,
+				// closing the topic closes the queue of its handlers and waits until they have consumed it
+				drain: func() { env.Alert.CloseTopic(topic) }})
 		case "alert-log":
 			path := filepath.Join(scratch, fmt.Sprintf("alert%d.log", i))
 			outs = append(outs, output{kind: k, text: fmt.Sprintf("src|alert().id('{{ index .Tags \"g\" }}').message('{{ index .Fields \"id\" }}').crit(lambda: TRUE).log('%s')", path),
@@ -440,7 +443,15 @@ func runStop(x *core.Ctx, r *core.Rng) {
 		time.Sleep(20 * time.Millisecond)
 		env.TM.StopTask("L")
 	}
-	// alert handlers run asynchronously behind the topic queue: bounded wait for their drain
+	// alert handlers run asynchronously behind the topic queue: drain it (the daemon sequence
+	// has closed the alert service, which does the same)
+	if stopKind != "daemon" {
+		for _, o := range outs {
+			if o.drain != nil {
+				o.drain()
+			}
+		}
+	}
 	deadline := time.Now().Add(5 * time.Second)
 	for time.Now().Before(deadline) {
 		done := true
@@ -648,7 +659,23 @@ func runFail(x *core.Ctx, r *core.Rng) {
 		waitFor = 2 * time.Second
 	}
 	terminated := true
-	if msg := waitET(et, waitFor); msg != "" {
+	// A failed node aborts its parent edges; the parent notices when it hands over its next
+	// point. If the failure came after the parent had already handed over everything, nothing
+	// would ever tell it: keep a trickle of further points flowing (as a live system does).
+	nudgeStop := make(chan struct{})
+	go func() {
+		for i := 0; i < 2000; i++ {
+			select {
+			case <-nudgeStop:
+				return
+			case <-time.After(time.Millisecond):
+			}
+			env.Write(kit.Point("m", map[string]string{"g": "a"}, map[string]interface{}{"id": int64(n + i)}, t0.Add(time.Duration(n+i)*time.Millisecond)))
+		}
+	}()
+	msg := waitET(et, waitFor)
+	close(nudgeStop)
+	if msg != "" {
 		terminated = false
 		fail("stop-hangs", "a task whose node failed never terminates ("+shapeKind+")", "%s", msg)
 		if shapeKind != "stats" {
